@@ -125,6 +125,8 @@ def jobs(tier, seed):
         "inherited-teardown": ([F([S(1), S(1), R([S(1), S(1)], tags=["setup"])], tags=["teardown"])], {"out_dom": {"*": [0, 1]}, "undef": False}),
         # a rule whose before-hook raises leaves its scenarios untested; failures in a LATER rule are listed all the same
         "hookfault-rules": ([F([R([S(1)], tags=["ra"]), R([S(1), S(1)])])], {"hooks": True, "fault": True, "out_dom": {"*": [0, 1]}, "undef": False}),
+        # a hook error on an outline row is the file's only failure
+        "hookfault-outline": ([F([O(1, [(2, ["te"])]), S(1)])], {"hooks": True, "fault": True, "out_dom": {"*": [0, 1]}, "undef": False}),
         "hookfault-skip": ([F([S(1, tags=["t1"]), S(1)])], {"hooks": True, "fault": True, "hook_skip_scenario": True, "out_dom": {"*": [0, 1]}, "undef": False}),
         "hookfault": ([F([S(1, tags=["t1"]), R([S(1)], tags=["tr"])], tags=["t0"])], {"hooks": True, "fault": True, "out_dom": {"*": [0, 1]}}),
         "hookfault-status-read": ([F([S(1, tags=["t1"]), S(1)])], {"hooks": True, "fault": True, "read_status_in_hooks": True, "out_dom": {"*": [0, 1]}}),
